@@ -117,6 +117,18 @@ class Opaque:
         return "Opaque<%s>(%s,%r)" % (self.ty, self.label, self.attrs)
 
 
+class Blob:
+    """Absorbing opaque heap value: every projection / deref of a Blob is a Blob, stores into it are dropped.
+    Used for values whose structure the claims do not depend on (built Values, raw box internals)."""
+    __slots__ = ("label",)
+
+    def __init__(self, label="blob"):
+        self.label = label
+
+    def __repr__(self):
+        return "Blob(%s)" % self.label
+
+
 class Uninit:
     def __repr__(self):
         return "uninit"
@@ -147,10 +159,12 @@ class Frame:
         self.ret_bb = None
         self.uid = next(Frame._uid)
         self.visits = {}
+        self.post = None        # python callable applied to the return value (continuation of a stubbed combinator)
 
     def clone(self):
         f = Frame.__new__(Frame)
         f.fn, f.fname, f.bb, f.ret_place, f.ret_bb, f.uid = self.fn, self.fname, self.bb, self.ret_place, self.ret_bb, self.uid
+        f.post = self.post
         f.locals = {k: clone(v) for k, v in self.locals.items()}
         f.visits = dict(self.visits)
         return f
@@ -197,8 +211,12 @@ STD_ENUMS = {
 }
 
 
+ENUM_PAYLOADS = {}
+
+
 def parse_enums_from_source(paths):
-    """Very small Rust-source scanner: `enum Name { A, B(..), C { .. }, }` -> {Name: [variants in order]}"""
+    """Very small Rust-source scanner: `enum Name { A, B(..), C { .. }, }` -> {Name: [variants in order]}
+    (payload type texts are kept in ENUM_PAYLOADS[Name][Variant] = [types])"""
     out = {}
     for p in paths:
         try:
@@ -213,9 +231,11 @@ def parse_enums_from_source(paths):
             vs = []
             for item in mirparse.split_top(body):
                 item = re.sub(r"#\[[^\]]*\]", "", item).strip()
-                mm = re.match(r"([A-Za-z_][A-Za-z0-9_]*)", item)
+                mm = re.match(r"([A-Za-z_][A-Za-z0-9_]*)\s*(?:\((.*)\))?", item, flags=re.S)
                 if mm:
                     vs.append(mm.group(1))
+                    ENUM_PAYLOADS.setdefault(name, {})[mm.group(1)] = \
+                        [x.strip() for x in mirparse.split_top(mm.group(2))] if mm.group(2) else []
             out[name] = vs
     return out
 
@@ -368,6 +388,8 @@ class Engine:
             return ("L", frame.uid, place[1])
         if k == "deref":
             v = self.load(st, self.resolve(st, frame, place[1]))
+            if isinstance(v, Blob):
+                return ("B", v.label)
             if not isinstance(v, Ref):
                 raise Unsupported("deref of non-ref %r" % (v,))
             return v.addr
@@ -406,6 +428,8 @@ class Engine:
         return vs.index(vname)
 
     def load(self, st, addr):
+        if addr[0] == "B":
+            return Blob(addr[1])
         if addr[0] == "S":
             return self.static_value(addr[1])
         if addr[0] == "V":
@@ -420,6 +444,8 @@ class Engine:
         return v
 
     def project(self, v, p):
+        if isinstance(v, Blob):
+            return v
         if p[0] == "f":
             if isinstance(v, Agg):
                 if p[1] >= len(v.fields):
@@ -445,6 +471,8 @@ class Engine:
         raise Unsupported("proj %r" % (p,))
 
     def store(self, st, addr, val):
+        if addr[0] == "B":
+            return
         cont, key, proj = self.root_container(st, addr)
         if not proj:
             cont[key] = val
@@ -453,6 +481,8 @@ class Engine:
         cont[key] = self.store_into(base, proj, val)
 
     def store_into(self, base, proj, val):
+        if isinstance(base, Blob):
+            return base
         p = proj[0]
         rest = proj[1:]
         if p[0] == "f":
@@ -658,6 +688,8 @@ class Engine:
 
     def cast(self, v, ty, kind):
         ty = ty.strip()
+        if isinstance(v, Blob):
+            return v
         if kind.startswith("PointerCoercion") or kind in ("PtrToPtr", "Transmute", "Subtype"):
             return v
         if kind == "IntToInt":
@@ -714,6 +746,9 @@ class Engine:
             return Ref(self.resolve(st, frame, rv[1]))
         if k == "discr":
             v = self.load(st, self.resolve(st, frame, rv[1]))
+            if isinstance(v, Blob):
+                d = z3.BitVec("blobdiscr_%d" % next(self.fresh), 64)
+                return Int(d, "isize")
             if isinstance(v, EnumV):
                 return Int(v.discr, "isize")
             if isinstance(v, Opaque) and "discr" in v.attrs:
@@ -728,7 +763,7 @@ class Engine:
         if k == "adt":
             return self.adt(rv[1], [self.operand(st, frame, x) for x in rv[2]])
         if k == "closure":
-            return Opaque("closure", rv[1], {})
+            return Agg("closure", rv[1], [self.operand(st, frame, x) for _, x in (rv[2] if len(rv) > 2 else [])])
         if k == "len":
             v = self.load(st, self.resolve(st, frame, rv[1]))
             if isinstance(v, Agg):
@@ -818,6 +853,8 @@ class Engine:
                 fr.bb = t[1]
             elif k == "return":
                 rv = fr.locals.get(0, UnitV())
+                if fr.post is not None:
+                    rv = fr.post(rv)
                 st.frames.pop()
                 if not st.frames:
                     self._terminal("RETURN", st, rv)
@@ -981,6 +1018,14 @@ class Engine:
                         eff(s2)
                     if ret_bb is None:
                         self._terminal("DIVERGE", s2)
+                    elif isinstance(v, tuple) and v and v[0] == "frame":
+                        _, f, fargs, post = v
+                        nf = Frame(f, f.name)
+                        for i, a in zip(f.args, fargs):
+                            nf.locals[i] = a
+                        nf.ret_place, nf.ret_bb, nf.post = dest_addr, ret_bb, post
+                        s2.frames.append(nf)
+                        self._run(s2)
                     else:
                         if dest_addr is not None:
                             self.store(s2, dest_addr, v)
